@@ -631,6 +631,7 @@ def run_materials(ctx):
             edge = [k * 0.25 for k in range(0, 13)]
             grid = sorted(set(grid + [lo + d for d in edge if lo + d <= hi] + [hi - d for d in edge if hi - d >= lo] + [lo, hi]))
             bads = []
+            twoway = []
             notimpl = False
             for T in grid:
                 try:
@@ -649,10 +650,30 @@ def run_materials(ctx):
                     continue
                 if not math.isfinite(fv) or (positive and not fv > 0.0):
                     bads.append((T, fv))
+                    continue
+                # the same temperature given the other way (Tc= vs Tk=) must give the same finite value
+                try:
+                    with common.quiet():
+                        f = getattr(m, fn)
+                        v2 = f(Tk=T + 273.15) if unit == "C" else f(Tc=T - 273.15)
+                    fv2 = float(v2)
+                    same = math.isfinite(fv2) and math.isclose(fv, fv2, rel_tol=1e-7, abs_tol=1e-10)
+                except Exception as e:  # noqa
+                    fv2, same = repr(e), False
+                ctx.evaluations += 1
+                if not same:
+                    twoway.append((T, fv, fv2))
             if notimpl:
                 ctx.count(f"{fn}: not implemented by the class (abstract)")
                 continue
             ctx.count(f"material property grids evaluated: {fn}")
+            if twoway:
+                inner = [x for x in twoway if lo < x[0] < hi]
+                sel = inner or twoway
+                ctx.fail(f"material-{fn}-Tc-vs-Tk-{name}" + ("" if inner else "-at-range-end"),
+                         f"{fn}(Tc=T) and {fn}(Tk=T+273.15) give the same finite value",
+                         dict(case, function=fn, unit=unit, range=[lo, hi], T=sel[0][0], failingPoints=len(sel)),
+                         observed={"stated unit": sel[0][1], "other unit": sel[0][2]})
             interior = [b for b in bads if lo < b[0] < hi]
             what = "positive-finite" if positive else "finite"
             for sel, suffix in ((interior, ""), ([b for b in bads if not (lo < b[0] < hi)] if not interior else [], "-at-range-end")):
